@@ -74,6 +74,13 @@ func c09Stress(w *core.Worker, i int) {
 	_ = os.Remove(trace)
 	profiles := []string{"", "lock.checked=2,rlock.lock_created=1", "lock.created=1,commit.removed=2,rlock.checked=1", "hold.x.begin=3,rlock.rlock_created=2,cf.closed=1"}
 	delay := profiles[r.Intn(len(profiles))]
+	// every fifth round has slow holders: some transactions keep the table for well over a second (anything that treats an
+	// old control file as abandoned gets its chance) while every release of a control file is stretched between close and unlink
+	slow := (i/5)%9 == 2
+	if slow {
+		delay = "cf.closed=40,lock.checked=2"
+		w.Count("stress_rounds_with_slow_holders", 1)
+	}
 	nclients, per := 12, 14
 	var stracedOps, killedOutside int64
 	var mu sync.Mutex
@@ -129,7 +136,9 @@ func c09Stress(w *core.Worker, i int) {
 					prog = fmt.Sprintf("UPDATE counter SET n = n + 1, m = m + 1; INSERT INTO log VALUES (%d, %d); SELECT n FROM counter;", c, s)
 				}
 				env := []string{"VERIF_TRACE=" + trace, fmt.Sprintf("VERIF_ROLE=c%d.%d", c, s)}
-				if delay != "" {
+				if slow && c < 3 && s%4 == 1 && (op.kind == "inc" || op.kind == "incfu" || op.kind == "incsel") {
+					env = append(env, "VERIF_DELAY=hold.x.begin=1300,cf.closed=40")
+				} else if delay != "" {
 					env = append(env, "VERIF_DELAY="+delay)
 				}
 				op.call = time.Since(t0).Nanoseconds()
